@@ -164,7 +164,7 @@ func (t *HTree) InclusionProof(i int) (proof *InclusionProof, err error) {
 }
 
 func VerifyInclusion(proof *InclusionProof, digest, root [sha256.Size]byte) bool {
-	if proof == nil {
+	if proof == nil || proof.Leaf < 0 || proof.Leaf >= proof.Width {
 		return false
 	}
 
